@@ -2888,6 +2888,18 @@ class SEVM:
 
         if follow_true:
             if target not in ex.pgm.valid_jumpdests():
+                # only the jumping branch fails: fork the fall-through branch first,
+                # then fail the current path under the jump condition
+                if follow_false:
+                    new_ex_false = self.create_branch(ex, cond_false, ex.insn.next_pc)
+                    if is_symbolic_cond:
+                        new_ex_false.jumpis[jid] = {
+                            True: visited[True],
+                            False: visited[False] + 1,
+                        }
+                    stack.push(new_ex_false)
+
+                ex.path.append(cond_true, branching=True)
                 raise InvalidJumpDestError(f"Invalid jump destination: 0x{target:X}")
 
             if follow_false:
